@@ -113,7 +113,11 @@ def check_generators(ctx):
                     and isinstance(outer_elem, ast.Tuple) and len(outer_elem.elts) == 2:
                 outer_iter = outer_iter.args[0]
                 outer_elem = outer_elem.elts[1]
-            if ok:
+            flat = isinstance(outer_iter, ast.Call) and U(outer_iter.func) in ('chain.from_iterable', 'itertools.chain.from_iterable') \
+                and len(outer_iter.args) == 1 and isinstance(outer_iter.args[0], ast.Name) and outer_iter.args[0].id == src
+            if ok and flat and not qual.endswith('tables'):
+                pass        # for token in chain.from_iterable(token_lists): every token of every list, one loop
+            elif ok:
                 ok = len(loops) >= 2 and isinstance(outer_iter, ast.Name) and outer_iter.id == src
                 why = 'the frequency count does not loop over every entry of `%s` (outer loop: %s)' % (
                     src, U(loops[0].iter) if loops else 'none')
